@@ -99,6 +99,14 @@ func (x *X) call1(f *Frame, st *State, call *ast.CallExpr) []Value {
 	}
 	// arguments
 	args := x.evalArgs(f, st, call, sig)
+	// static types of the argument expressions (before implicit conversion to interface
+	// parameters): an uncontracted callee can reach only what those types reach
+	x.argStatic = nil
+	if !sig.Variadic() || call.Ellipsis != token.NoPos {
+		for _, a := range call.Args {
+			x.argStatic = append(x.argStatic, f.info.TypeOf(a))
+		}
+	}
 	name := "func-value"
 	if fn != nil {
 		name = fn.FullName()
@@ -314,6 +322,12 @@ func (x *X) applyContract(f *Frame, st *State, spec *FuncSpec, fn *types.Func, r
 		t := x.specBool(penv, x.clause(cl))
 		c.assume(st.pc, t)
 	}
+	for i := range spec.Assumes {
+		cl := &spec.Assumes[i]
+		t := x.specBool(penv, x.clause(cl))
+		c.assume(st.pc, t)
+		c.assumption("assumed (unproved) postcondition of " + shortFuncName(spec.Key) + ": " + cl.Text)
+	}
 	for _, fr := range spec.Fresh {
 		pe, err := parseSpecExpr(fr)
 		if err != nil {
@@ -423,7 +437,7 @@ func (x *X) havocTarget(env *SpecEnv, st *State, text string, spec *FuncSpec) {
 	case *ast.Ident:
 		// ghost global or package variable
 		if n.Name == "Store" {
-			c.setHeap(st, "$g!Store", c.fresh("Store", SArr("Key", "OptBytes")), nil)
+			c.setHeap(st, "$g!Store", c.fresh("Store", SArr("KeyT", "OptBytes")), nil)
 			return
 		}
 		if g, ok := x.prog.contracts.ghostGlobals[n.Name]; ok {
@@ -554,9 +568,17 @@ func (x *X) havocReachable(st *State, recv *Value, args []Value, who string) {
 	if recv != nil {
 		x.reachableHeaps(recv.T, out, seen, &all, &store)
 	}
-	for _, a := range args {
+	for i, a := range args {
 		if a.T != nil {
-			x.reachableHeaps(a.T, out, seen, &all, &store)
+			t := a.T
+			if _, isIface := t.Underlying().(*types.Interface); isIface && i < len(x.argStatic) && x.argStatic[i] != nil && len(x.argStatic) == len(args) {
+				if _, stIface := x.argStatic[i].Underlying().(*types.Interface); !stIface {
+					if _, isTuple := x.argStatic[i].(*types.Tuple); !isTuple {
+						t = x.argStatic[i]
+					}
+				}
+			}
+			x.reachableHeaps(t, out, seen, &all, &store)
 		}
 	}
 	if all {
@@ -579,8 +601,8 @@ func (x *X) havocReachable(st *State, recv *Value, args []Value, who string) {
 		c.setHeap(st, h, c.fresh("hv", out[h]), nil)
 	}
 	if store {
-		c.heap(st, "$g!Store", SArr("Key", "OptBytes"))
-		c.setHeap(st, "$g!Store", c.fresh("Store", SArr("Key", "OptBytes")), nil)
+		c.heap(st, "$g!Store", SArr("KeyT", "OptBytes"))
+		c.setHeap(st, "$g!Store", c.fresh("Store", SArr("KeyT", "OptBytes")), nil)
 		for g, ts := range x.prog.contracts.ghostGlobals {
 			s, err := x.prog.sortOfTypeText(ts, nil)
 			if err == nil {
@@ -591,13 +613,72 @@ func (x *X) havocReachable(st *State, recv *Value, args []Value, who string) {
 	}
 }
 
+// codecDefaultFrame: assumed frame of uncontracted record codecs (the C04 family):
+//   T.Serialization(sink *common.ZeroCopySink)       writes only the sink (its buffer field and bytes)
+//   T.Deserialization(source *common.ZeroCopySource) writes only its receiver (and what the receiver's
+//                                                    type reaches) and the source cursor
+// Returns false when the callee does not have one of these shapes.
+func (x *X) codecDefaultFrame(st *State, sig *types.Signature, name string, recv *Value, args []Value) bool {
+	if recv == nil || len(args) != 1 || args[0].T == nil {
+		return false
+	}
+	pt, ok := args[0].T.(*types.Pointer)
+	if !ok {
+		return false
+	}
+	nt, ok := pt.Elem().(*types.Named)
+	if !ok || nt.Obj().Pkg() == nil || nt.Obj().Pkg().Path() != modulePath+"/common" {
+		return false
+	}
+	c := x.c
+	switch {
+	case strings.HasSuffix(name, ".Serialization") && nt.Obj().Name() == "ZeroCopySink":
+		c.assumption("uncontracted T.Serialization(sink) methods write only their sink (assumed frame; the record codecs are property C04)")
+		sink := args[0]
+		lo, _, ft, _ := fieldRange(pt.Elem(), "buf")
+		oldBuf := c.loadPtrRange(st, pt.Elem(), sink.S(), lo, lo+4, ft)
+		nb := c.freshValue("ser_buf", ft)
+		x.wfValue(st, nb)
+		c.storePtrRange(st, pt.Elem(), sink.S(), lo, nb)
+		// bytes of the old backing array may be overwritten in place; other arrays are untouched
+		c.setInnerArr(st, tUint8, 0, oldBuf.C[0], c.fresh("ser_bytes", SArr(SBV(64), SBV(8))))
+		return true
+	case strings.HasSuffix(name, ".Deserialization") && nt.Obj().Name() == "ZeroCopySource":
+		c.assumption("uncontracted T.Deserialization(source) methods write only their receiver and the source cursor (assumed frame; property C04)")
+		src := args[0]
+		lo, _, ft, _ := fieldRange(pt.Elem(), "off")
+		c.storePtrRange(st, pt.Elem(), src.S(), lo, c.freshValue("des_off", ft))
+		// receiver: everything reachable from its type except byte arrays that existed before
+		out := map[string]Sort{}
+		seen := map[string]bool{}
+		all, store := false, false
+		x.reachableHeaps(recv.T, out, seen, &all, &store)
+		var names []string
+		for h := range out {
+			if h == elemHeapName(tUint8, "") {
+				continue // decoded byte strings are views of the input or fresh copies; existing bytes are not written
+			}
+			names = append(names, h)
+		}
+		sort.Strings(names)
+		for _, h := range names {
+			c.heap(st, h, out[h])
+			c.setHeap(st, h, c.fresh("des", out[h]), nil)
+		}
+		return true
+	}
+	return false
+}
+
 func (x *X) unknownCall(f *Frame, st *State, call *ast.CallExpr, sig *types.Signature, name string, recv *Value, args []Value) []Value {
 	c := x.c
 	if !c.abstract {
 		fail("call to %s has no contract (precise mode) at %s", name, x.pos(call.Pos()))
 	}
 	c.note("uncontracted call: " + name)
-	x.havocReachable(st, recv, args, name)
+	if !x.codecDefaultFrame(st, sig, name, recv, args) {
+		x.havocReachable(st, recv, args, name)
+	}
 	x.bumpAlloc(st)
 	var vals []Value
 	for i := 0; i < sig.Results().Len(); i++ {
